@@ -25,7 +25,8 @@ def ev(e, state, now, hd_done):
     if k == 'tcmp2':
         return OPS[e[2]](state['t'][e[1]], state['t'][e[3]])
     if k == 'rcmp':
-        return all(OPS[e[2]](state['r'][f], v) for f, v in e[3].items())
+        # documented: elementwise over *every* kind of the resource, kinds that are not named count as zero
+        return all(OPS[e[2]](state['r'][f], e[3].get(f, 0)) for f in state['r'])
     if k == 'done':
         return hd_done
     if k == 'time_ge':
@@ -96,7 +97,11 @@ def cases(draw, tier):
         if k < 9:
             return ['tcmp2', 0, draw(st.sampled_from(sorted(OPS))), 1]
         if k < 10:
-            return ['rcmp', 'R', draw(st.sampled_from(['>=', '<=', '==', '>', '<'])), {'a': draw(st.integers(0, 3))}]
+            lv = {'a': draw(st.integers(0, 3))}
+            if draw(st.booleans()):
+                lv['b'] = draw(st.integers(0, 3))          # several kinds: the comparison holds iff it holds for every kind
+            rc = ['rcmp', 'R', draw(st.sampled_from(['>=', '<=', '==', '>', '<'])), lv]
+            return ['not', rc] if draw(st.integers(0, 2)) == 0 else rc
         if k < 11:
             return ['done', 'hd'] if draw(st.booleans()) else ['not', ['done', 'hd']]
         if k < 12:
@@ -137,12 +142,14 @@ def cases(draw, tier):
                     ctl.append({'op': 'instant'})          # next round of this time step
                 elif r < 6:
                     ctl.append({'op': 'set_flag', 'i': draw(st.integers(0, nflags - 1)), 'v': draw(st.booleans())})
+                    if draw(st.integers(0, 3)) == 0:
+                        ctl[-1]['inv'] = True
                 elif r < 8:
                     ctl.append({'op': 'tset', 'i': draw(st.integers(0, ntr - 1)), 'v': draw(st.integers(0, 3))})
                 elif r < 9:
-                    ctl.append({'op': 'increase', 'r': 'R', 'amounts': {'a': draw(st.integers(0, 2))}})
+                    ctl.append({'op': 'increase', 'r': 'R', 'amounts': {draw(st.sampled_from(['a', 'b'])): draw(st.integers(0, 2))}})
                 else:
-                    ctl.append({'op': 'decrease', 'r': 'R', 'amounts': {'a': draw(st.integers(0, 2))}})
+                    ctl.append({'op': 'decrease', 'r': 'R', 'amounts': {draw(st.sampled_from(['a', 'b'])): draw(st.integers(0, 2))}})
                 ctl.append({'op': 'bools', 'exprs': exprs})
         return ctl
     times = sorted(draw(st.lists(st.integers(0, 20).map(lambda x: x / 4) if not decimal else st.integers(0, 50).map(lambda x: x / 10),
@@ -171,7 +178,8 @@ def cases(draw, tier):
     hd = {'name': 'hd', 'steps': [{'op': 'sleep', 'd': draw(st.sampled_from([0.125, 0.625, 1.375, 2.125]))}]}
     blk = {'op': 'scope', 'name': 'S', 'children': [hd] + [{'name': 'ctl2', 'steps': ctl2}] + waiters + [{'name': 'ctl', 'steps': ctl}], 'body': []}
     prog = {'start': 0, 'objs': {'flags': nflags, 'tracked': [draw(st.integers(0, 3)) for _ in range(ntr)],
-                                 'resources': [{'kind': 'res', 'name': 'R', 'levels': {'a': draw(st.integers(0, 3))}}]},
+                                 'resources': [{'kind': 'res', 'name': 'R', 'levels': {'a': draw(st.integers(0, 3)),
+                                                                                       'b': draw(st.integers(0, 3))}}]},
             'roots': [{'name': 'r0', 'steps': [blk]}]}
     return {'prog': prog, 'exprs': exprs}
 
